@@ -29,6 +29,7 @@ theorem c08_on_source (ls : List Label) (s : PSt) (h : run procSem init ls = som
 
 
 
+
 -- BEGIN PINS (written by bin/mkpins; do not edit by hand)
 /-- the Go functions this property's model and obligations were written against have exactly the
 pinned skeletons (SHA-256 prefix of the atom list) -/
@@ -40,7 +41,7 @@ theorem pinned_skeletons_c08 :
      ("Scipipe.InPort_Send", "62cb51bf3ab53084"),
      ("Scipipe.NewTask", "95298f03c320cb96"),
      ("Scipipe.OutPort_Send", "06287c7bef096378"),
-     ("Scipipe.Process_Run", "05880ea16e590fb1"),
+     ("Scipipe.Process_Run", "40f832903317f455"),
      ("Scipipe.Process_createTasks", "8c856d9ef4492f5d"),
      ("Scipipe.Task_Execute", "40fd1fec0c69deb2"),
      ("Scipipe.taskQueue_NextTaskDone", "749f6263d8a0c13f")] = true := by decide
